@@ -127,7 +127,7 @@ Fixpoint fold_attrs (m : nsmap) (am : attrmap) (ats : list (qname * wvalue)) : a
 Definition flush_attrs (is_nil : bool) (am : attrmap) : attrmap :=
   if is_nil then am else am_remove am q_xsi_nil_m.
 Definition flush_map (tag : qname) (attrs : attrmap) (m : nsmap) : nsmap :=
-  let m1 := fold_left (fun m a => add_namespace (fst (fst a)) m) attrs m in
+  let m1 := fold_left (fun m a => add_namespace_attr (fst (fst a)) m) attrs m in
   if negb (truthy (fst tag)) && nm_has_key m1 None then nm_set m1 None [] else m1.
 
 Definition data_plain (v : wvalue) : bool :=
